@@ -4,3 +4,6 @@ package roprometheus
 
 // vPromCount reads a model counter/observer (engine intrinsic).
 func vPromCount(x any) int64 { panic("symro intrinsic") }
+
+// vPromCountL reads the child of a vector whose label set contains name=value (engine intrinsic).
+func vPromCountL(x any, name, value string) int64 { panic("symro intrinsic") }
